@@ -19,8 +19,8 @@ enum { K_SCHED, K_POINTS, K_B0, K_B1, K_B2, K_PAIRS, K_TRIPLES, K_SELF, K_ACC, K
 static const char *const RAT[] = { NULL };
 
 /* ------------------------------------------------------------------ bodies */
-#define NBODY 9
-static const int BODY_TUNE[NBODY] = { 0, 3, 5, 9, 3, 0, 4, 10, 2 };   /* used by the sequential part only (sp_ienv is process-global) */
+#define NBODY 10
+static const int BODY_TUNE[NBODY] = { 0, 3, 5, 9, 3, 0, 4, 10, 2, 4 };   /* used by the sequential part only (sp_ienv is process-global) */
 static uint64_t hx(uint64_t h, const xs *s, int with_err)
 {
     int n = s->n; h = fnv(h, &s->info, sizeof s->info);
@@ -78,6 +78,14 @@ static uint64_t body_ilu(void)
     superlu_options_t opt; ilu_set_default_options(&opt); opt.PrintStat = NO; opt.ConditionNumber = YES; memset(&s.Glu, 0, sizeof s.Glu);
     xs_call(&s, &opt); uint64_t h = hx(0, &s, 0); xs_destroy(&s); return h;
 }
+/* incomplete LU with the modified-ILU compensation: two bodies of the same order that differ only in their options (ILU_MILU_Dim, drop tolerance) */
+static uint64_t body_milu(double dim, double tol, int vals)
+{
+    const vf_type *T = vf_T(TD); xs s; xs_init(&s, T, 8, base_pattern(8, 6), vals, 0); s.ilu = 1;
+    dmat B; make_rhs(T, &s.A_orig, 0, 1, 1, &B); xs_set_rhs(&s, &B, 0, 0);
+    superlu_options_t opt; ilu_set_default_options(&opt); opt.PrintStat = NO; opt.ILU_MILU = SMILU_2; opt.ILU_MILU_Dim = dim; opt.ILU_DropTol = tol; opt.ConditionNumber = YES; memset(&s.Glu, 0, sizeof s.Glu);
+    xs_call(&s, &opt); uint64_t h = hx(0, &s, 0); xs_destroy(&s); return h;
+}
 static uint64_t body_bridge(void)
 {
     const vf_type *T = vf_T(TD); int n = 6; dmat A, B; make_values(T, n, n, base_pattern(n, 2), 2, &A);
@@ -99,7 +107,8 @@ static uint64_t run_body(int k)
     case 3: return body_gssv(TC, 1, 7);
     case 4: return body_manual();
     case 5: return body_order();
-    case 6: return body_ilu();
+    case 6: return body_milu(3.0, 0.3, 6);
+    case 9: return body_milu(2.0, 0.3, 6);
     case 7: return body_bridge();
     default: return body_gssvx(TS, 1, 1, 2, 5, 5);
     }
@@ -202,6 +211,10 @@ static void run_sched(const vcase *c, vres *r)
     /* solo outputs: each body alone under the monitor (one thread) */
     uint64_t solo[NBODY]; memset(solo, 0, sizeof solo);
     mon_wset_reset();
+    /* first contact: the threads run before anything else in this process has called the library, so that lazily initialised process-lifetime state
+       (function-local statics, caches) is first touched concurrently */
+    { uint64_t o0[MON_MAXT]; execute(nt, bodies, NULL, 0, o0);
+      if (mon.conflict) { wk_fail(r, "data-race", "threads running bodies %d,%d%s, first use in a fresh process: location %p (%s) is accessed by two threads with at least one write (thread %d, %s)", bodies[0], bodies[1], nt > 2 ? ",.." : "", (void *)mon.conflict_addr, mon.conflict_kind == 1 ? "writable global/static" : "block of another thread", mon.conflict_tid, mon.conflict_write ? "write" : "read"); return; } }
     for (int t = 0; t < nt; t++) { int b = bodies[t]; if (!solo[b]) { uint64_t o[1]; execute(1, &b, NULL, 0, o); solo[b] = o[0]; if (mon.conflict) { wk_fail(r, "harness", "conflict in a solo run"); return; } } }
     /* the exploration is repeated while the set of written shared granules grows (reads of a granule become scheduling points once somebody writes it) */
     xstats X = { 0, 0, 0, now_s(), c->aux3 > 0 ? (double)c->aux3 : 70.0 }; int bad = 0, rounds = 0;   /* time budget: a harness that cannot finish is reported as capped, never as a hang */
@@ -221,8 +234,8 @@ static const int TRIPLES[6][3] = { { 0, 1, 2 }, { 0, 4, 6 }, { 3, 5, 7 }, { 0, 0
 static void s_pair(const int *d, vcase *c) { int k = d[0], a = 0, b = 0; for (a = 0; a < NBODY; a++) { int cnt = NBODY - a; if (k < cnt) { b = a + k; break; } k -= cnt; } c->aux = 2; c->k = a + NBODY * b; c->aux2 = d[1]; c->lwork = 60000; }
 static void s_triple(const int *d, vcase *c) { c->aux = 3; c->k = TRIPLES[d[0]][0] + NBODY * TRIPLES[d[0]][1] + NBODY * NBODY * TRIPLES[d[0]][2]; c->aux2 = d[1]; c->lwork = 60000; }
 static void s_self2(const int *d, vcase *c) { c->aux = 2; c->k = d[0] + NBODY * d[0]; c->aux2 = 2; c->lwork = 60000; }
-static const family FSQ[] = { { "all 45 unordered pairs of 9 bodies (self pairs included) x preemption bound {0,1}", 2, { 45, 2 }, s_pair }, { "6 triples x preemption bound {0,1}", 2, { 6, 2 }, s_triple }, { "9 self pairs at preemption bound 2", 1, { 9 }, s_self2 } };
-static const family FST[] = { { "all 45 unordered pairs x preemption bound {0,1,2}", 2, { 45, 3 }, s_pair }, { "6 triples x preemption bound {0,1,2}", 2, { 6, 3 }, s_triple } };
+static const family FSQ[] = { { "all 55 unordered pairs of 10 bodies (self pairs included) x preemption bound {0,1}", 2, { 55, 2 }, s_pair }, { "6 triples x preemption bound {0,1}", 2, { 6, 2 }, s_triple }, { "10 self pairs at preemption bound 2", 1, { 10 }, s_self2 } };
+static const family FST[] = { { "all 55 unordered pairs x preemption bound {0,1,2}", 2, { 55, 3 }, s_pair }, { "6 triples x preemption bound {0,1,2}", 2, { 6, 3 }, s_triple } };
 static long sz_sched(int tier) { return tier ? fam_total(FST, 2) : fam_total(FSQ, 3); }
 static void dec_sched(int tier, long idx, vcase *c) { if (tier) { fam_decode(FST, 2, idx, c); c->lwork = 4000000; c->aux3 = 1800; } else { fam_decode(FSQ, 3, idx, c); c->aux3 = 70; } }
 static void desc_sched(int tier, char *b, size_t cap) { if (tier) fam_describe(FST, 2, b, cap); else fam_describe(FSQ, 3, b, cap); }
@@ -243,8 +256,8 @@ static void run_tsan(const vcase *c, vres *r)
     for (int t = 0; t < nthr; t++) if (ta[t].out != g_solo[ta[t].body]) { wk_fail(r, "output-differs-from-solo", "free-running thread %d (body %d) produced output that differs bit-wise from the same call executed alone", t, ta[t].body); return; }
 }
 static void s_tsan(const int *d, vcase *c) { int e[2] = { d[0], 0 }; s_pair(e, c); c->aux2 = d[1] ? 50 : 20; }
-static const family FTQ[] = { { "45 pairs of bodies, 4 free-running threads (2 per body) behind a barrier, 20 rounds", 2, { 45, 1 }, s_tsan } };
-static const family FTT[] = { { "45 pairs of bodies, 4 free-running threads, {20,50} rounds", 2, { 45, 2 }, s_tsan } };
+static const family FTQ[] = { { "55 pairs of bodies, 4 free-running threads (2 per body) behind a barrier, 20 rounds", 2, { 55, 1 }, s_tsan } };
+static const family FTT[] = { { "55 pairs of bodies, 4 free-running threads, {20,50} rounds", 2, { 55, 2 }, s_tsan } };
 static long sz_tsan(int tier) { return tier ? fam_total(FTT, 1) : fam_total(FTQ, 1); }
 static void dec_tsan(int tier, long idx, vcase *c) { if (tier) fam_decode(FTT, 1, idx, c); else fam_decode(FTQ, 1, idx, c); }
 static void desc_tsan(int tier, char *b, size_t cap) { if (tier) fam_describe(FTT, 1, b, cap); else fam_describe(FTQ, 1, b, cap); }
@@ -268,5 +281,6 @@ int main(int argc, char **argv)
         uint64_t h = run_body(b); fflush(stdout); dup2(so, 1);
         printf("%llx\n", (unsigned long long)h); return 0;
     }
+    if (argc >= 2 && (!strcmp(argv[1], "C09sched") || !strcmp(argv[1], "C09tsan"))) wk_fork_per_case = 1;     /* first-use initialisation of process-lifetime state must happen inside the threaded execution */
     return wk_main(argc, argv);
 }
